@@ -14,7 +14,12 @@ def write_if_changed(path, text):
         f.write(text)
 
 
-def regenerate(repo, outdir):
+# which properties rest on which generated fragment
+FRAGMENT_USERS = {"Dispatch": ["C06", "C16"], "Stubs": ["C16", "C03"], "Fields": ["C06", "C08"]}
+
+
+def regenerate(repo, outdir, prop=None):
+    """Rewrites every fragment; returns an error text only for fragments `prop` rests on."""
     errs = []
     try:
         from extract_frag import FRAGMENTS
@@ -25,7 +30,8 @@ def regenerate(repo, outdir):
             text = fn(repo)
             write_if_changed(os.path.join(outdir, name + ".lean"), text)
         except Exception as e:  # fail closed
-            errs.append("%s: %s" % (name, e))
+            if prop is None or prop in FRAGMENT_USERS.get(name, []):
+                errs.append("%s: %s" % (name, e))
             write_if_changed(os.path.join(outdir, name + ".lean"),
                              "-- extraction failed: %s\n#eval (throw (IO.userError \"extraction of %s failed\") : IO Unit)\n" % (str(e).replace("\n", " "), name))
     return "\n".join(errs) if errs else None
